@@ -184,3 +184,48 @@ def gpos_unsorted(num_glyphs, rng):
     hdr_len = 10
     out = struct.pack(">HHHHH", 1, 0, hdr_len, hdr_len + len(sl), hdr_len + len(sl) + len(fl))
     return out + sl + fl + ll, exp
+
+
+def vdmx(rng):
+    """VDMX table (vertical device metrics) as rasteriser-tuned TrueType fonts carry it: a few ratio ranges
+    pointing at height groups, several ranges sharing one group and groups stored in another order than
+    the ranges that use them (both explicitly allowed)."""
+    n_groups = rng.randint(1, 3)
+    n_ratios = rng.randint(n_groups, n_groups + 2)
+    groups = []
+    for _ in range(n_groups):
+        lo = rng.randint(6, 10)
+        hi = lo + rng.randint(1, 8)
+        ents = b"".join(struct.pack(">Hhh", y, y + rng.randint(0, 3), -(y // 4) - rng.randint(0, 2)) for y in range(lo, hi + 1))
+        groups.append(struct.pack(">HBB", hi - lo + 1, lo, hi) + ents)
+    # which group each ratio range uses: every group at least once, otherwise free
+    use = list(range(n_groups)) + [rng.randrange(n_groups) for _ in range(n_ratios - n_groups)]
+    rng.shuffle(use)
+    hdr_len = 6 + 4 * n_ratios + 2 * n_ratios
+    offs, pos = [], hdr_len
+    for g in groups:
+        offs.append(pos)
+        pos += len(g)
+    out = struct.pack(">HHH", rng.choice([0, 1]), n_groups, n_ratios)
+    for i in range(n_ratios):
+        last = i == n_ratios - 1
+        out += struct.pack(">BBBB", rng.choice([0, 1]), 0 if last else rng.choice([1, 2, 4]), 0 if last else 1, 0 if last else rng.choice([1, 2, 3]))
+    out += b"".join(struct.pack(">H", offs[u]) for u in use)
+    return out + b"".join(groups)
+
+
+def hdmx(num_glyphs, rng):
+    """hdmx: device advance widths for a few ppem sizes; records padded to a multiple of four bytes."""
+    sizes = sorted(rng.sample(range(8, 40), rng.randint(1, 4)))
+    rec = 2 + num_glyphs
+    rec += (-rec) % 4
+    out = struct.pack(">HhL", 0, len(sizes), rec)
+    for ppem in sizes:
+        w = bytes(min(255, (ppem * (3 + (g * 7) % 5)) // 8) for g in range(num_glyphs))
+        out += bytes([ppem, max(w) if w else 0]) + w + b"\0" * (rec - 2 - num_glyphs)
+    return out
+
+
+def ltsh(num_glyphs, rng):
+    """LTSH: the ppem from which each glyph scales linearly."""
+    return struct.pack(">HH", 0, num_glyphs) + bytes(rng.choice([1, 1, 9, 12, 50, 255]) for _ in range(num_glyphs))
